@@ -316,6 +316,30 @@ func permanentInPlaceProbe(given map[string]interface{}) bool {
 	return true
 }
 
+// watched runs f; where the case has a script that spins until its deadline (150 ms), f runs in a
+// goroutine of its own and is given four seconds: processing that has not come back by then is
+// reported as hung (the goroutine is left behind, spinning).
+func watched(mayHang bool, f func()) (hung bool) {
+	if !mayHang {
+		f()
+		return false
+	}
+	done := make(chan interface{}, 1)
+	go func() {
+		defer func() { done <- recover() }()
+		f()
+	}()
+	select {
+	case r := <-done:
+		if r != nil {
+			panic(r)
+		}
+		return false
+	case <-time.After(4 * time.Second):
+		return true
+	}
+}
+
 // guardLog records, for the native guards of the case being run, whether each call accepted its
 // candidate (returned bindings without an error), in call order.
 var guardLog []bool
@@ -628,7 +652,13 @@ func runOneWalk(op string, id int, c gen.WalkCase) (line walkLine) {
 			line.Pending = c.Msgs[0]
 		}
 		guardLog = guardLog[:0]
-		stride, err := spec.Step(ctx, st, pending, ctl, props)
+		var stride *core.Stride
+		var err error
+		if hung := watched(c.Spec.HasLoop(), func() { stride, err = spec.Step(ctx, st, pending, ctl, props) }); hung {
+			line.Go = map[string]interface{}{"hang": true}
+			line.Probe = map[string]interface{}{"returns": false}
+			return
+		}
 		// the first branch whose guard returns bindings decides: within one step no guard runs
 		// after a guard has accepted
 		guardStops = true
@@ -648,7 +678,13 @@ func runOneWalk(op string, id int, c gen.WalkCase) (line walkLine) {
 		}
 	} else {
 		line.Msgs = c.Msgs
-		w, err := spec.Walk(ctx, st, msgs, ctl, props)
+		var w *core.Walked
+		var err error
+		if hung := watched(c.Spec.HasLoop(), func() { w, err = spec.Walk(ctx, st, msgs, ctl, props) }); hung {
+			line.Go = map[string]interface{}{"hang": true}
+			line.Probe = map[string]interface{}{"returns": false}
+			return
+		}
 		if err != nil {
 			obs = map[string]interface{}{"walkErr": err.Error()}
 		} else {
@@ -828,6 +864,11 @@ func runWalk(cfg Config) {
 	for i := 0; i < cfg.N; i++ {
 		c := g.WalkCase(cfg.Profile)
 		mark(i)
-		enc.Encode(runOneWalk(op, i, c))
+		line := runOneWalk(op, i, c)
+		enc.Encode(line)
+		if line.Go["hang"] == true {
+			// processing that never came back is still spinning in this process: the run ends here
+			return
+		}
 	}
 }
